@@ -236,6 +236,8 @@ def run(tier):
                 rep.finding("crash", "short structural string crashed the reader", {"kind": "read", "config": cfg, "opt": opt, "input_hex": C.hexs(docs[idx]), "stderr": err[:2000]})
             for i in diffs[:5]:
                 rep.broken_obligation("correspondence/read", "model %r vs code %r on %r" % ((model[i] or "")[:150], (impl[i] or "")[:150], docs[i]), False)
+            if U.grammar_verdicts(rep, cfg, docs, impl, model, diffs, ("ill-formed-accepted", "wrong-error-class"), opt=opt):
+                found = True
             for i, a in enumerate(impl):
                 if a is None:
                     continue
@@ -271,6 +273,44 @@ def run(tier):
             rep.finding("crash", "corrupted document crashed the reader", {"kind": "read", "config": cfg, "opt": 0, "input_hex": C.hexs(cdocs[idx]), "stderr": err[:2000]})
         for i in diffs[:5]:
             rep.broken_obligation("correspondence/corrupted", "model %r vs code %r on %r" % ((model[i] or "")[:150], (impl[i] or "")[:150], cdocs[i][:150]), False)
+        if U.grammar_verdicts(rep, cfg, cdocs, impl, model, diffs, ("ill-formed-accepted", "wrong-error-class")):
+            found = True
+
+        # ---- small ill-formed forms in every context: under a discard, a tag, inside each collection kind, as map key / value, behind metadata and
+        #      namespaced-map prefixes, deep: "a discarded / nested form must still be well-formed".  The expectation is the model's verdict, which the
+        #      theorems of C03 / C10 identify with the grammar of the configuration (util.grammar_verdicts)
+        clj = cfg in ("clj", "both")
+        exp = cfg in ("exp", "both")
+        bad = [b")", b"]", b"}", b"(1", b"[1", b"{1", b"{1 2 3}", b"#{1 1}", b"{:a 1 :a 2}", b"#", b"#_", b"#t", b"#_ )", b"#t ]", b"\\", b"\nope", b"\u12", b"\"unterminated", b"1x", b"1.", b"1e", b"+1.5e",
+               b"a::b", b"::a", b":", b":a/", b"/a", b"a/", b"##Nope", b"##", b"1/2x", b"08a", b"#{1 [2 2] [2 2]}", b"[1 2)", b"(1 2]", b"{:a 1]", b"#_ #_ 1"]
+        good = [b"1", b":k", b"[1]", b"{:a 1}", b"#{1 2}", b"#t 1", b"\\a", b"\"s\"", b"sym", b"1.5", b"nil"]
+        if clj:
+            bad += [b"^", b"^:a", b"^:a 5", b"^:k \"s\"", b"^Tag :kw", b"^{:doc \"x\"} 2.5", b"^5 [1]", b"^[1] nil", b"^:a ^:b 7", b"^ ]", b"#:", b"#:a", b"#:a 5", b"#:a [1]", b"#:a/b{}", b"#::a{:x 1}", b"#::{}",
+                    b"#: a{}", b"#:a{:x 1 :a/x 2}", b"#:a{:x}", b"#:5{}", b"#:\"s\"{}", b"1/0", b"1/", b"0x", b"0xG", b"2r2", b"37r1", b"09", b"\\o400", b"\\o8"]
+            good += [b"^:a [1]", b"^{:a 1} x", b"#:a{:x 1}", b"1/2", b"0x1F", b"2r101", b"017"]
+        if exp:
+            bad += [b"\"\"\"\nabc", b"\"\"\"\nabc\n", b"1_", b"_1 ]", b"1__", b"1_.5", b"1._5", b"1e_5", b"1_N", b"1.5_e5", b"1.5_M"]
+            good += [b"\"\"\"\n a\n \"\"\"", b"1_000", b"1_0.2_5"]
+        ctxs = [b"%s", b"#_ %s 1", b"#_%s 1", b"[#_ %s 2]", b"[1 #_ %s]", b"#_ [1 %s 3] :after", b"#_ #_ 1 %s 2", b"#t %s", b"#t [%s]", b"[%s]", b"(1 %s)", b"#{%s}", b"{:a %s}", b"{%s 1}", b"{:a #_ %s 1}",
+                b"[[[[%s]]]]", b"[1 ;c\n %s ;d\n 2]", b"#_ #t %s 9", b"#_ {:a %s} 9"]
+        if clj:
+            ctxs += [b"^:m [%s]", b"^{:a %s} [1]", b"#:n{:a %s}", b"#_ ^:m [%s] 1", b"#_ #:n{:a %s} 1", b"[^:m #_ %s x]"]
+        fdocs = [c.replace(b"%s", f) for f in bad + good for c in ctxs]
+        fimpl, fmodel, fdiffs, fcrashes, _ = K.correspond(cfg, K.read_lines(fdocs))
+        rep.count("ill-formed-in-context/" + cfg, len(fdocs))
+        rep.count("ill-formed-in-context-rejected/" + cfg, sum(1 for m in fmodel if m and m.startswith("err ")))
+        for idx, rc, err in fcrashes:
+            found = True
+            rep.finding("crash", "an ill-formed form in a context crashed the reader", {"kind": "read", "config": cfg, "opt": 0, "input_hex": C.hexs(fdocs[idx]), "stderr": err[:2000]})
+        for i in fdiffs[:5]:
+            rep.broken_obligation("correspondence/ill-formed-in-context", "model %r vs code %r on %r" % ((fmodel[i] or "")[:150], (fimpl[i] or "")[:150], fdocs[i][:150]), False)
+        if U.grammar_verdicts(rep, cfg, fdocs, fimpl, fmodel, fdiffs, ("ill-formed-accepted", "wrong-error-class")):
+            found = True
+        for i, a_ in enumerate(fimpl):
+            if a_ and (a_.startswith("BOTH") or a_.startswith("NEITHER") or (a_.startswith("err") and "msg=0" in a_)):
+                found = True
+                rep.finding("xor", "malformed result: %s" % a_[:100], {"kind": "read", "config": cfg, "opt": 0, "input_hex": C.hexs(fdocs[i]), "observed": a_[:300]})
+        rep.note_cases(len(fdocs), set(fdocs))
         for i, a in enumerate(impl):
             if a is None:
                 continue
